@@ -71,7 +71,8 @@ CLAIMED = {
         text='tape.get_edges is executed on 1-2 blocks (data; tone+data; data+data; pulse sequences) whose every pulse width, bit-pulse width, tail, pause and first edge is symbolic, for used bits 1..8, polarity 0/1, block polarity None/0/1, '
              'with and without zero-length bit pulses: z3 shows the edge list non-decreasing, each data-block range starting at the edge where the data begins (at the time the preceding pulses and pauses add up to, at the level the block polarity demands) '
              'and ending at its last/tail edge, every bit pulse inside the range having exactly the width its bit prescribes, and no edge beyond the end of the signal. write_tap->parse_tap and write_pzx->parse_pzx return the symbolic bytes written; '
-             'the same bytes as TAP, TZX standard-speed block and PZX give the same pilot, sync and data pulses.',
+             'the same bytes as TAP, TZX standard-speed block and PZX give the same pilot, sync and data pulses. Bits encoded by different numbers of pulses (1/2, 2/3, 3/1). PZX PULS (all four entry forms, 1-2 entries) and DATA blocks with symbolic fields parse to the '
+             'specified pulses; TZX blocks 0x11, 0x12, 0x13, 0x14 with symbolic fields give the same edge list as the PZX PULS/DATA blocks describing the same signal (no pause).',
         note='Data bytes range over 6 values (the byte is realised by the per-byte timing table). A data block that follows a pause with no pulses of its own has no edge at the end of the pause: its first pulse is checked as pause+width (an edge list '
              'records level changes only). write_pzx adds the PZX-conventional 945 T tail pulse, which TAP lacks: allowed. Outside: long data, direct recording / generalized data / CSW blocks, tapinfo text, start/stop/skip.',
         design='4 (C11)', technique=TECH),
